@@ -69,6 +69,9 @@ type Desc struct {
 	Title       string            `json:"title,omitempty"`
 }
 
+// ParamJSON renders one parameter declaration as its Swagger 2.0 JSON object.
+func ParamJSON(p Param) map[string]interface{} { return paramJSON(p) }
+
 func paramJSON(p Param) map[string]interface{} {
 	m := map[string]interface{}{"name": p.Name, "in": p.In}
 	if p.Required {
